@@ -81,6 +81,54 @@ def gen_case(rng, maxrows=12, maxops=12):
     return {"idx": idx, "cols": cols, "ops": ops}
 
 
+LONG_ALPHAS = [["ip", "mq"], ["ip", "mq", "mb"], ["aa", "bb", "cc", "dd"], ["\u00e91", "\u00df2", "ip"], ["mq", "Mq", "MQ"]]
+
+
+def gen_long_case(rng):
+    """long index columns (17..200 rows) over a small alphabet, so that every
+    name is repeated many times: every occurrence number (also negative, out of
+    range) in string / tuple form with offsets, get_index_unique labels, and the
+    same again after renaming a row; object and fixed-width unicode columns"""
+    alpha = rng.choice(LONG_ALPHAS)
+    n = rng.choice([17, 18, 19, 20, 24, 32, 33, 48, 64, 65, 100, 128, 150, 200, rng.randint(17, 200), rng.randint(17, 60)])
+    w = [rng.choice([1, 2, 5]) for _ in alpha]
+    idx = rng.choices(alpha, weights=w, k=n)
+    case = {"idx": idx, "cols": [["x", [rng.randint(-50, 50) for _ in range(n)]]],
+            "idx_dtype": rng.choice(["object", "unicode"]), "ops": []}
+    cur = list(idx)
+
+    def lookups(k):
+        out = []
+        for _ in range(k):
+            name = rng.choice(alpha)
+            m = cur.count(name)
+            cnt = rng.choice([rng.randint(-m - 1, m), rng.randint(0, max(m - 1, 0)), -rng.randint(1, max(m, 1)), m - 1, -m, 0, -1])
+            off = rng.choice([0, 0, 0, 1, -1, 2, -3])
+            z = rng.random()
+            if z < 0.45:
+                r = ["str", name + f"::{cnt}" + (f">>{off}" if off > 0 else f"<<{-off}" if off < 0 else "")]
+            elif z < 0.75:
+                r = ["tup2", name, cnt]
+            else:
+                r = ["tup3", name, cnt, off]
+            y = rng.random()
+            out.append([rng.choice(["getindex", "floordiv"]), r] if y < 0.6 else ["getcell", rng.choice(["name", "x"]), r])
+        return out
+
+    case["ops"] += lookups(30) + [["unique"]]
+    for _ in range(rng.randint(0, 2)):
+        if rng.random() < 0.7:
+            i = rng.randrange(n)
+            v = rng.choice(alpha)
+            case["ops"].append(["setcell", "name", ["int", i], v])
+            cur[i] = v
+        else:
+            cur = rng.choices(alpha, k=n)
+            case["ops"].append(["setidxcol", list(cur), rng.choice(["item", "attr"])])
+        case["ops"] += lookups(15) + ([["unique"]] if rng.random() < 0.5 else [])
+    return case
+
+
 def small_scope_cases(maxlen):
     """every index column over a 3-name alphabet up to maxlen x every
     name/count/offset selector form (exhaustive for C07's lookup clause)."""
@@ -198,7 +246,16 @@ def correspondence(ctx, cases, tag):
     # model side
     texts, index_of = [], []
     unrepresentable = []
-    for chunk_id, chunk in enumerate(vlib.chunks(list(range(len(cases))), 250)):
+    # at most 250 cases per file, and few long tables per file (weight = rows x operations)
+    groups, curg, wsum = [], [], 0
+    for i, c in enumerate(cases):
+        wgt = (len(c["idx"]) + 5) * (len(c["ops"]) + 1)
+        if curg and (len(curg) >= 250 or wsum + wgt > 60000):
+            groups.append(curg); curg, wsum = [], 0
+        curg.append(i); wsum += wgt
+    if curg:
+        groups.append(curg)
+    for chunk_id, chunk in enumerate(groups):
         N = vlib.Interner()
         items, ids = [], []
         for i in chunk:
@@ -246,11 +303,16 @@ def oracle_fails(case):
 def run(ctx):
     ctx.rule = ("random Table histories (0..12 rows, 2-5 names, 0-2 integer columns, <=12 ops mixing lookups in string/tuple/int form "
                 "with cell/column/attribute assignments, new columns, deletions, get_index_unique) plus every index column over "
-                "{a,b,c} up to length 3 (quick) / 5 (thorough) x every name/count/offset selector; non-trivial = an index-column "
+                "{a,b,c} up to length 3 (quick) / 5 (thorough) x every name/count/offset selector, plus 48 (quick) / 600 (thorough) long "
+                "tables (17..200 rows over 2-4 names so that every name repeats many times; object and fixed-width unicode index columns; "
+                "non-ASCII and case-variant names): 30+ lookups name::k / (name,k) / (name,k,off) over the whole range of k incl. negative "
+                "and out of range, get_index_unique, then the same after renaming a row / replacing the column; non-trivial = an index-column "
                 "mutation followed by a name-based lookup; distinct by (table, ops)")
     proof_ok = vlib.standard_proof_part(ctx, "props/C07.v", allowed_axioms=(), extra_targets=["run/RunTable.vo"])
     n = ctx.pick(600, 12000)
     cases = small_scope_cases(ctx.pick(3, 5)) + [gen_case(ctx.rng) for _ in range(n)]
+    # long tables last and few per case file (the literals are long)
+    cases += [gen_long_case(ctx.rng) for _ in range(ctx.pick(48, 600))]
     results, oracle, orc_fail, mism = correspondence(ctx, cases, "c")
     ctx.samples = [{"case": cases[-1], "impl_results": results[-1]}, {"case": cases[len(cases) // 2], "impl_results": results[len(cases) // 2]}]
     dist = {}
@@ -263,7 +325,9 @@ def run(ctx):
             if x[0] == "err":
                 errs[x[1]] = errs.get(x[1], 0) + 1
     ctx.cov["input_distribution"] = {"ops": dist, "errors_observed": errs, "cases": len(cases),
-                                     "rows_hist": {str(k): sum(1 for c in cases if len(c["idx"]) == k) for k in range(0, 13)}}
+                                     "rows_hist": {str(k): sum(1 for c in cases if len(c["idx"]) == k) for k in range(0, 13)},
+                                     "long_tables_17_to_200_rows": sum(1 for c in cases if len(c["idx"]) >= 17),
+                                     "unicode_index_columns": sum(1 for c in cases if c.get("idx_dtype") == "unicode")}
     ctx.obligations.append(("correspondence: model = implementation on every generated history", not mism, f"{len(mism)} mismatching cases"))
     ctx.obligations.append(("oracle: linear scan of the current index column agrees with the implementation", not orc_fail, f"{len(orc_fail)} failing cases"))
     if orc_fail:
